@@ -469,7 +469,18 @@ pub fn digest_case(seed: u64, i: u64) -> String {
     let (bytes, _) = build_bytes(&mut t);
     // every fifth case carries chunks of the ignored types whose body is odd (empty, short, random): whether they
     // are looked at must not depend on the process (for instance on whether a logger is installed)
-    let bytes = if i % 5 == 2 { insert_odd_ignorable(&bytes, &mut r) } else { bytes };
+    let mut bytes = if i % 5 == 2 { insert_odd_ignorable(&bytes, &mut r) } else { bytes };
+    // every fifth case carries non-zero values (small and extreme) in the reserved / z-index bytes of its cel chunks:
+    // whatever a reader makes of them, every build has to make the same of them
+    if i % 5 == 3 {
+        let sc = crate::scan::scan(&bytes);
+        for c in &sc.chunks {
+            if c.ctype == 0x2005 && c.end - c.start >= 6 + 16 && r.chance8(5) {
+                let v: i16 = [32767i16, -32768, 32766, 32765, -2, 2, -1, 1][r.below(8) as usize];
+                bytes[c.start + 6 + 9..c.start + 6 + 11].copy_from_slice(&v.to_le_bytes());
+            }
+        }
+    }
     let r = guarded(|| match AsepriteFile::read(&bytes[..]) {
         Err(e) => format!("err:{}", e.to_string().chars().take(60).collect::<String>()),
         Ok(f) => {
